@@ -22,8 +22,8 @@ Qed.
 Lemma callbacks_all_off : forall outs,
   run_callbacks all_off outs = mkCb (map (fun _ => true) outs) (map (fun _ => LScript) (filter raises outs)) SkNone.
 Proof.
-  induction outs as [|o r IH]; [reflexivity|].
-  cbn [run_callbacks]. rewrite IH. destruct o as [|[|]]; cbn; try reflexivity.
+  unfold run_callbacks. induction outs as [|o r IH]; [reflexivity|].
+  cbn [run_callbacks_c]. rewrite IH. destruct o as [|[|]]; cbn; try reflexivity.
   all: rewrite andb_false_r; reflexivity.
 Qed.
 
@@ -37,11 +37,11 @@ Proof. induction l as [|b l IH]; [reflexivity|]. cbn. rewrite IH. destruct b; re
 Lemma occ_contained : forall sub m oc, (forall e, m e = true) ->
   occ_ok oc (snd (occ_step all_off sub m oc)) = true /\ forall e, fst (occ_step all_off sub m oc) e = true.
 Proof.
-  intros sub m oc Hm. destruct oc as [e o|outs]; cbn [occ_step].
-  - rewrite Hm, site_contained. cbn [fst snd]. split.
+  intros sub m oc Hm. unfold occ_step. destruct oc as [e o|outs]; cbn [occ_step_c].
+  - fold (run_site all_off sub e o). rewrite Hm, site_contained. cbn [fst snd]. split.
     + destruct o as [|k]; reflexivity.
     + intros e'. unfold set_alive. cbn. destruct (entry_eqb e e'); [reflexivity|apply Hm].
-  - rewrite callbacks_all_off. cbn [fst snd cb_logs cb_sink cb_ran occ_ok ob_served ob_script_logs ob_sink ob_cb_ran].
+  - fold (run_callbacks all_off outs). rewrite callbacks_all_off. cbn [fst snd cb_logs cb_sink cb_ran occ_ok ob_served ob_script_logs ob_sink ob_cb_ran].
     split; [|exact Hm]. rewrite count_script_map, N.eqb_refl, list_eqb_bool_refl. reflexivity.
 Qed.
 
@@ -49,11 +49,11 @@ Theorem history_contained : forall sub h m, (forall e, m e = true) ->
   history_ok h (snd (run_history all_off sub m h)) = true /\ forall e, fst (run_history all_off sub m h) e = true.
 Proof.
   intros sub h. induction h as [|oc r IH]; intros m Hm; [split; [reflexivity|exact Hm]|].
-  cbn [run_history].
+  unfold run_history in *. cbn [run_history_c]. fold (occ_step all_off sub m oc).
   destruct (occ_contained sub m oc Hm) as [H1 H2].
   destruct (occ_step all_off sub m oc) as [m1 ob] eqn:E1. cbn [fst snd] in H1, H2.
   destruct (IH m1 H2) as [H3 H4].
-  destruct (run_history all_off sub m1 r) as [m2 obs] eqn:E2. cbn [fst snd] in *.
+  destruct (run_history_c gen_classes all_off sub m1 r) as [m2 obs] eqn:E2. cbn [fst snd] in *.
   split; [|exact H4]. cbn [history_ok]. rewrite H1, H3. reflexivity.
 Qed.
 
@@ -61,7 +61,7 @@ Qed.
 Theorem others_undisturbed : forall dv sub m oc e',
   (match oc with OUser e _ => e <> e' | OCallbacks _ => True end) -> fst (occ_step dv sub m oc) e' = m e'.
 Proof.
-  intros dv sub m oc e' H. destruct oc as [e o|outs]; cbn [occ_step]; [|reflexivity].
+  intros dv sub m oc e' H. unfold occ_step. destruct oc as [e o|outs]; cbn [occ_step_c]; [|reflexivity].
   destruct (m e) eqn:Em; [|reflexivity]. cbn [fst]. unfold set_alive.
   destruct (entry_eqb e e') eqn:Ee; [|reflexivity]. destruct e, e'; cbn in Ee; try discriminate; congruence.
 Qed.
@@ -69,11 +69,11 @@ Qed.
 (* script load: a failing file is reported once, stays unloaded, and every other file loads *)
 Theorem load_isolated : forall files, load_ok files (load_scripts all_off files) = true.
 Proof.
-  unfold load_ok. induction files as [|o r IH]; [reflexivity|].
-  assert (E : fold_left (layer_step all_off) [LCatchLogRaise cc_load_file; LCatchOther cc_load_scripts; LEnd SkHA] (start_of o)
+  unfold load_ok, load_scripts. induction files as [|o r IH]; [reflexivity|].
+  assert (E : fold_left (layer_step all_off) [LCatchLogRaise (c_load_file gen_classes); LCatchOther (c_load_scripts gen_classes); LEnd SkHA] (start_of o)
               = mkO None (if raises o then [LScript; LOther] else []) true SkNone).
   { destruct o as [|[|]]; reflexivity. }
-  cbn [load_scripts]. rewrite E. cbn [o_sink sink_none o_logs l_loaded l_script_logs l_sink map].
+  cbn [load_scripts_c]. rewrite E. cbn [o_sink sink_none o_logs l_loaded l_script_logs l_sink map].
   apply andb_true_iff in IH as [IH1 IH3]. apply andb_true_iff in IH1 as [IH1 IH2].
   rewrite IH1. cbn [list_eqb]. rewrite IH2, IH3.
   destruct o as [|k]; reflexivity.
@@ -82,12 +82,12 @@ Qed.
 (* today's code on ordinary exceptions: same statement for files whose load raises an Exception *)
 Theorem load_isolated_today : forall files, Forall (fun o => o <> ORaise KBase) files -> load_ok files (load_scripts as_is files) = true.
 Proof.
-  unfold load_ok. induction files as [|o r IH]; intros HF; [reflexivity|].
+  unfold load_ok, load_scripts. induction files as [|o r IH]; intros HF; [reflexivity|].
   inversion HF as [|? ? Ho Hr]; subst.
-  assert (E : fold_left (layer_step as_is) [LCatchLogRaise cc_load_file; LCatchOther cc_load_scripts; LEnd SkHA] (start_of o)
+  assert (E : fold_left (layer_step as_is) [LCatchLogRaise (c_load_file gen_classes); LCatchOther (c_load_scripts gen_classes); LEnd SkHA] (start_of o)
               = mkO None (if raises o then [LScript; LOther] else []) true SkNone).
   { destruct o as [|[|]]; try reflexivity. congruence. }
-  cbn [load_scripts]. rewrite E. cbn [o_sink sink_none o_logs l_loaded l_script_logs l_sink map].
+  cbn [load_scripts_c]. rewrite E. cbn [o_sink sink_none o_logs l_loaded l_script_logs l_sink map].
   specialize (IH Hr). apply andb_true_iff in IH as [IH1 IH3]. apply andb_true_iff in IH1 as [IH1 IH2].
   rewrite IH1. cbn [list_eqb]. rewrite IH2, IH3.
   destruct o as [|k]; reflexivity.
@@ -102,26 +102,26 @@ Definition only_break : deviations := mkDev false false true.
    occurrence is not served *)
 Lemma refuted_D181 :
   let h := [OUser EExprEvent (ORaise KBase); OUser EExprEvent ORet] in
-  history_ok h (snd (run_history only_base Legacy all_alive h)) = false /\
-  map ob_served (snd (run_history only_base Legacy all_alive h)) = [true; false].
+  history_ok h (snd (run_history_c today_classes only_base Legacy all_alive h)) = false /\
+  map ob_served (snd (run_history_c today_classes only_base Legacy all_alive h)) = [true; false].
 Proof. split; reflexivity. Qed.
 
 (* D181, service call: the exception reaches Home Assistant's caller *)
-Lemma refuted_D181_service : forall sub, o_sink (run_site only_base sub EService (ORaise KBase)) = SkHA.
+Lemma refuted_D181_service : forall sub, o_sink (run_site_c today_classes only_base sub EService (ORaise KBase)) = SkHA.
 Proof. destruct sub; reflexivity. Qed.
 
 (* D180: the default subsystem reports a trigger function's exception on another logger only *)
-Lemma refuted_D180 : o_logs (run_site only_nowrap Dm ETrigFunc (ORaise KExc)) = [LOther].
+Lemma refuted_D180 : o_logs (run_site_c today_classes only_nowrap Dm ETrigFunc (ORaise KExc)) = [LOther].
 Proof. reflexivity. Qed.
 
 (* D22: the callback after a raising one does not run *)
-Lemma refuted_D22 : cb_ran (run_callbacks only_break [ORaise KExc; ORet]) = [true; false].
+Lemma refuted_D22 : cb_ran (run_callbacks_c today_classes only_break [ORaise KExc; ORet]) = [true; false].
 Proof. reflexivity. Qed.
 
 (* D181 at load time: the load loop is left, the files after the failing one are not loaded *)
 Lemma refuted_D181_load :
-  l_sink (load_scripts only_base [ORet; ORaise KBase; ORet]) = SkHA /\
-  l_loaded (load_scripts only_base [ORet; ORaise KBase; ORet]) = [true; false; false].
+  l_sink (load_scripts_c today_classes only_base [ORet; ORaise KBase; ORet]) = SkHA /\
+  l_loaded (load_scripts_c today_classes only_base [ORet; ORaise KBase; ORet]) = [true; false; false].
 Proof. split; reflexivity. Qed.
 
 (* non-trivial instances of the hypotheses used above *)
@@ -131,6 +131,6 @@ Example today_instance : Forall (fun o => o <> ORaise KBase) [ORet; ORaise KExc;
 Proof. repeat constructor; congruence. Qed.
 
 (* the source still has the shape the attribution model mirrors *)
-Lemma formatter_shape : fmt_replace_on_filename = true /\ fmt_replace_on_name = true /\ fmt_replace_other = 0%N
+Lemma formatter_shape : fmt_replace_on_filename = true /\ fmt_replace_on_name = true
   /\ fmt_chains_cause = true /\ fmt_chains_context = true.
 Proof. repeat split; reflexivity. Qed.
